@@ -236,7 +236,8 @@ func SelectAddrFromSubnet(seed []byte, net1 *net.IPNet) (net.IP, error) {
 	randBigInt.And(randBigInt, maskBigInt)
 	ipBigInt.Add(ipBigInt, randBigInt)
 
-	return net.IP(ipBigInt.Bytes()), nil
+	// full address width (Bytes() would drop leading zero bytes)
+	return net.IP(ipBigInt.FillBytes(make([]byte, addrLen/8))), nil
 }
 
 func init() {
